@@ -11,7 +11,9 @@ THEOREMS = [
     "TornadoModel.C09.redirect_bounded",
     "TornadoModel.C09.post_becomes_get",
     "TornadoModel.C09.cross_origin_strips",
-    "TornadoModel.C09.cross_origin_iff_differs",
+    "TornadoModel.C09.cross_origin_of_differs",
+    "TornadoModel.C09.follow_decrements",
+    "TornadoModel.C09.isSubseq_iff",
 ]
 TRUSTED = [
     "urllib.parse (urljoin, urlsplit fields, urlunsplit) and base64: their results are data of each hop",
@@ -33,12 +35,12 @@ RULE = ("schedules: N<=6 fetches x max_clients 1-3 x ops {connect ok/fail, respo
 EXHAUSTIVE = {"quick": False, "thorough": False}
 CLAUSES = {
     "at most max_clients requests in progress": "active_le_max",
-    "queued requests start in submission order": "fifo_start",
+    "queued requests start in submission order": "fifo_start (+ isSubseq_iff: the trace oracle is List.Sublist)",
     "every fetch completes exactly once": "tie only (oracle on callback counts and futures; conservation invariant left as complete_exactly_once_goal)",
     "redirects followed at most max_redirects times": "redirect_bounded",
     "303 (non-HEAD) and 301/302 (POST) become bodiless GETs": "post_becomes_get",
     "cross-origin redirect never carries Authorization, Cookie (any multiplicity) or URL credentials":
-        "cross_origin_strips + cross_origin_iff_differs",
+        "cross_origin_strips + cross_origin_of_differs",
 }
 PARALLEL = True
 CASE_TIMEOUT = 60
